@@ -66,7 +66,11 @@ def h64(obj) -> str:
     return hashlib.blake2b(obj, digest_size=8).hexdigest()
 
 
-def jsonable(x, depth=0):
+def jsonable(x, depth=0, full=False):
+    """JSON-able copy.  full=True keeps every string/list complete (replay cases); otherwise long
+    values are abbreviated (evidence samples)."""
+    if full:
+        return _jsonable_full(x, depth)
     if depth > 6:
         return repr(x)[:200]
     if isinstance(x, (str, int, float, bool)) or x is None:
@@ -90,6 +94,30 @@ def jsonable(x, depth=0):
     return repr(x)[:300]
 
 
+def _jsonable_full(x, depth=0):
+    if depth > 40:
+        return repr(x)
+    if isinstance(x, str):
+        return x        # json.dump(ensure_ascii=True) round-trips lone surrogates as \\udXXX escapes
+    if isinstance(x, (int, bool)) or x is None:
+        return x
+    if isinstance(x, float):
+        return repr(x) if (x != x or x in (float("inf"), float("-inf"))) else x
+    if isinstance(x, (bytes, bytearray)):
+        return {"__bytes__": bytes(x).hex()}
+    if isinstance(x, dict):
+        return {str(k): _jsonable_full(v, depth + 1) for k, v in x.items()}
+    if isinstance(x, (list, tuple)):
+        return [_jsonable_full(v, depth + 1) for v in x]
+    if isinstance(x, (set, frozenset)):
+        return sorted((_jsonable_full(v, depth + 1) for v in x), key=repr)
+    return repr(x)
+
+
+def _has_surrogate(s):
+    return any(0xD800 <= ord(ch) <= 0xDFFF for ch in s)
+
+
 class Failure:
     """One observed disagreement with the oracle.
 
@@ -109,7 +137,7 @@ class Failure:
         self.bucket = bucket or (finding or kind)
 
     def to_json(self):
-        return {"kind": self.kind, "case": jsonable(self.case), "detail": jsonable(self.detail),
+        return {"kind": self.kind, "case": jsonable(self.case, full=True), "detail": jsonable(self.detail),
                 "finding": self.finding, "bucket": self.bucket}
 
     @classmethod
